@@ -6,6 +6,7 @@ import (
 	"fmt"
 	"math/big"
 	"reflect"
+	"time"
 
 	"github.com/consensys/gnark/constraint"
 	"github.com/consensys/gnark/constraint/solver"
@@ -122,4 +123,25 @@ func hintDeps(sys any) map[solver.HintID]string {
 	}
 	m, _ := d.Interface().(map[solver.HintID]string)
 	return m
+}
+
+// SolveTimeout is Solve under a watchdog: solves of these programs take milliseconds, a call
+// that has not returned after d is reported as an error prefixed "TIMEOUT" (its goroutine is
+// abandoned).
+func (c *Compiled) SolveTimeout(d time.Duration, in, outs []*big.Int, opts ...solver.Option) (any, error) {
+	type res struct {
+		sol any
+		err error
+	}
+	ch := make(chan res, 1)
+	go func() {
+		s, e := c.Solve(in, outs, opts...)
+		ch <- res{s, e}
+	}()
+	select {
+	case r := <-ch:
+		return r.sol, r.err
+	case <-time.After(d):
+		return nil, fmt.Errorf("TIMEOUT: Solve did not return within %v", d)
+	}
 }
